@@ -282,10 +282,7 @@ where
         }
 
         let bold = writer.bold();
-        let span = event
-            .parent()
-            .and_then(|id| ctx.span(id))
-            .or_else(|| ctx.lookup_current());
+        let span = ctx.parent_span();
 
         let scope = span.into_iter().flat_map(|span| span.scope());
 
